@@ -114,6 +114,8 @@ PROP = {
         "output_filter_uses": EXPECTED_USES,
         "output_filter_handoff": EXPECTED_HANDOFF,
         "config_filter_writes": [],
+        # process-global state reachable from the filter / slot code (harness/extract/c11.go): none; a cache or memo added there is a first-use / concurrency dimension to draw
+        "slot_filter_globals_written": [],
         "output_filter_wiring_defs": ["keyFilter := cfg.Filter.KeyFilter", "slotFilter := cfg.Filter.SlotFilter", "dbBlackList := cfg.Filter.DbBlacklist"],
         "keyspec_numkeysExtractor_body": "{ return numkeysStepExtractor(numkeysIdx, firstKeyIdx, 1, fixedKeys...) }",
         "keyspec_partial_projection": ["mset", "del", "unlink"],
@@ -133,7 +135,7 @@ PROP = {
         {"name": "C10conc", "pkg": "./pkg/filter/", "test": "TestVerifC10conc", "go_flags_thorough": ["-race"]},
     ],
     "driver": "drv_C10",
-    "gens": ["gofn_rangelist", "gofn_keytoslot", "gofn_crc16", "crc16", "gofn_trie", "gofn_keyspec"],
+    "gens": ["gofn_rangelist", "gofn_keytoslot", "gofn_crc16", "crc16", "gofn_trie", "gofn_keyspec", "c11"],
     "rule": "generated (configuration, input) pairs, corpus first. Configurations: 0-6 slot-range entries per list drawn to nest / enclose / overlap "
             "left and right / touch / share a left bound / be single-slot / reversed / malformed / exceed 16383, dense (64-slot) and sparse universes; "
             "0-4 prefixes per list with shared prefixes, invalid UTF-8, U+FFFD, the empty string; command black/white lists in random ASCII case; db lists. "
@@ -142,6 +144,12 @@ PROP = {
             "adversarial range sets; commands from both regenerated keyspec tables in random case with arity below/at/above the row, extractor commands in "
             "documented and broken shapes (numkeys 0/too large/non-numeric/leading zeros/up to 19 digits incl. 2^63-1, dangling STORE/BY/GET, STREAMS with odd "
             "tails), 49 well-formed commands with key positions from the Redis command reference (golden), unknown and non-ASCII command names. "
+            "DIMENSION AUDIT (forced, with a coverage counter cfg_<list>_<0|1|many> / cfg_<option>_<value> each): every list empty / one entry / the same entry twice / entries that are prefixes of one another / the empty string as a prefix "
+            "and as a command name / non-ASCII prefixes; slot entries one-point, adjacent, overlapping, reversed, malformed, with the end slots; commands with NO argument, the empty key alone and among several keys, DEL / UNLINK / MSET with 1000 keys and the "
+            "rejected key at the front / middle / end, names in lower / upper / mixed case - in the bare and the NewRedisOutput session; dbBlacklist [] / [2] / [0] / [1,2,3] x targetDb -1 / 0 / 2 x targetDbMap none / onto a listed number / from a listed number / "
+            "non-injective x startDbId 0..3 x three fixed streams with SELECT inside MULTI; snapshot runs with replayRdbParallel 1 / 3, keyExists replace / none, the empty key among the generated entries, and single-entry snapshots with replaceHashTag ON in both "
+            "loops (keys whose target key is a bookkeeping key; judged by rules + reserved namespaces, no model line). ALIASING monitor: the last six projected results of FilterCmdKey are held across later calls and must still read what was returned "
+            "(what = FilterCmdKey-alias; a scratch buffer kept in the filter is reported with the two op lines), and the caller's argument slice must be unchanged (FilterCmdKey-mutates-args). "
             "EDGE SLOTS (seeded C11-r8-m1): the EMPTY key (HASH_SLOT 0) and keys steered into slots 0, 1, 16382, 16383 against black / white lists that contain / exclude the end slots, through FilterSlot, FilterCmdKey "
             "(SET, DEL, MSET, RENAME with a second key of another slot) in both sessions, and corpus/C10/slot_empty_key.txt through the parser loop and both snapshot loops. "
             "Session 5: every (word, longer word with that prefix) pair of 11 pairs inserted in BOTH orders (and around a third word) into each of the four lists and probed with every prefix of the longer word in both cases "
